@@ -35,6 +35,11 @@ CLAIMED.update({
             "SSA dominance/control-dependence checks, range-mutation effects, normalised sibling comparison", "§4 C19"),
 })
 
+CLAIMED.update({
+    "C13": ("Static decision on finite tables extracted from the source: the number recogniser is extracted as a DFA over <state method, finished flag> by specialising every state method for each of the 256 byte values, its driver contract is checked on SSA, and language equivalence with the RFC 8259 number grammar is decided by product construction (mismatches reported with a shortest witness); the six comparison predicates, `not` and Cmp's sign logic are decided as exhaustive truth tables; negative zero normalisation; overflow/allocation guards. Does not decide the digit-wise comparison loops, exponent shifting or String().",
+            "SSA partial evaluation per input byte -> DFA extraction -> product-automaton equivalence; symbolic decision tables (go/ssa abstract interpreter)", "§4 C13"),
+})
+
 NOT_YET = {}
 
 NOT_APPLICABLE = {
